@@ -52,8 +52,8 @@ Legal(s) == /\ \A i \in DOMAIN s : s[i].name \in Range(NameOrder)
 
 GRow == [sig |-> sig, gen |-> [j \in DOMAIN code.G |-> <<code.G[j].kind, code.G[j].name, code.G[j].idx>>],
          needlen |-> code.needlen, kwable |-> code.kwable, haskw |-> Has(sig, "varkw"),
-         variants |-> VariantSeq,
+         variants |-> VariantSeq, shapes |-> ShapeRows,
          calls |-> { CallRow(sig, code, CallOf(Cases[gi].calls[j])) : j \in DOMAIN Cases[gi].calls }]
 GEmit == gi \in DOMAIN Cases =>
-         LET row == GRow IN Legal(sig) /\ PrintT(ToJson(Printable(row))) /\ \A r \in row.calls : r.h
+         LET row == GRow IN Legal(sig) /\ KindsOK /\ PrintT(ToJson(Printable(row))) /\ \A r \in row.calls : r.h
 =============================================================================
